@@ -1,4 +1,5 @@
-"""Runs harness/side_probe (see its header): clone scenarios (C04, C13) and leaked-guard scenarios (C10)."""
+"""Runs harness/side_probe (see its header): clone scenarios (C04, C13), leaked-guard scenarios (C10) and clone_from
+scenarios with and without a panicking component Clone (counted under both)."""
 import os
 import re
 import subprocess
@@ -30,8 +31,12 @@ def run(repo, cache, seed, n=40):
                 out[m.group(1) + '_scenarios'] += int(m.group(2))
             if line.startswith('FAIL clone'):
                 out['clone_failures'].append('[%s build] %s' % (sub, line[5:]))
-            if line.startswith('FAIL leak'):
+            if line.startswith('FAIL leak') or line.startswith('FAIL clone_from'):
                 out['leak_failures'].append('[%s build] %s' % (sub, line[5:]))
+            m2 = re.match(r'clonefrom scenarios (\d+) failures (\d+)', line)
+            if m2:
+                out['clone_scenarios'] += int(m2.group(1))
+                out['leak_scenarios'] += int(m2.group(1))
         if p.returncode not in (0, 1):
             out['leak_failures'].append('[%s build] the probe died (exit %d): %s' % (sub, p.returncode, p.stderr[-300:]))
     return out
